@@ -54,7 +54,7 @@ def is_point(fn, e, P):
     return ir.strip_casts(fn.resolve(e)) == ["v", P]
 
 
-def effects(prog, fn, e, P):
+def effects(prog, fn, e, P, summary=None):
     """(reads [(field, idx)], writes [(field, idx)]) of the output point by the element"""
     reads, writes = [], []
     lhs_nodes = set()
@@ -91,7 +91,7 @@ def effects(prog, fn, e, P):
                         # written whole by the callee; read whole as well when it is also passed at a reading position
                         if any(j != i and is_point(fn, b, P) for j, b in enumerate(sub[2])):
                             reads += [(f, ()) for f in read_set(sub[1])]
-                        writes += [(f, ()) for f in FIELDS]
+                        writes += [(f, ()) for f in (FIELDS if summary is None else summary(sub[1], i))]
                     else:
                         reads += [(f, ()) for f in read_set(sub[1])]
     # explicit reads in expressions: P->f on a right-hand side / condition
